@@ -222,9 +222,17 @@ def main(tier, seed):
                 pair.raw("fork X D %d" % (ent[0] + 1))
                 pair.core_disk["X"] = "X"
                 pair.jpos["X"] = 10 ** 9
+                # the independent reader looks at the files BEFORE the crate opens them (open repairs: it truncates what it does not accept)
+                st0 = jsfmt.read_storage(*jsfmt.parse_files(pair.impl.cmd("files X")))
                 ia, _ = pair.do("open X X")
                 if not ia.startswith("ok"):
                     raise Violation("reader:open", "storage with one pending entry of %d bytes: open answered %s" % (size, ia[:100]), "big-entry")
+                ib, _ = pair.do("info X")
+                t = ib.split(" ")
+                if st0 is None or (int(t[1]), int(t[2]), int(t[3])) != (st0["length"], st0["byte_length"], st0["contiguous_actual"]):
+                    raise Violation("reader:big-entry", "storage with one pending oplog entry of %d bytes (current header bit, valid checksum): the layout rules give "
+                                    "(length, byte length, contiguous) = %s, the crate opens it to %s" %
+                                    (size, st0 and (st0["length"], st0["byte_length"], st0["contiguous_actual"]), ib), "big-entry")
                 reader_check(pair, "X", "X", "storage with one pending oplog entry of %d bytes" % size)
                 res.count("big-pending-entry")
                 pair.raw("drop X")
